@@ -1,6 +1,6 @@
-CONSTANTS N = 3  Shapes = {"empty", "nonl", "multi", "mlike"}  Statuses = {0, 3}
+CONSTANTS N = 3  Shapes = {"empty", "nonl", "multi", "mlike"}  Statuses = {0, 3}  Pres = {"none"}
 CONSTANTS AllowTimeout = TRUE  AllowKill = TRUE
-CONSTANTS FallbackShell = TRUE  CloseOnFailure = TRUE  FallbackOnTimeout = FALSE
+CONSTANTS FallbackShell = TRUE  CloseOnFailure = TRUE  FallbackOnTimeout = FALSE  PreambleInShell = FALSE
 INIT MCInit
 NEXT MCNext
 VIEW View
